@@ -42,10 +42,115 @@ def sh(cmd, cwd=None, timeout=3600, env=None):
 
 # ------------------------------------------------------------------------------------------ builds
 def tie_translate():
-    """Tie (T): regenerate gen/Constants.v from the working tree. Returns (ok, message)."""
+    """Tie (T): regenerate gen/Constants.v from the working tree. Returns (ok, message).
+    ok = the translator ran (exit 0).  It may still have left some names STALE (anchors it could not translate, for which it
+    re-emitted the committed baseline definition): see tie_stale() / stale_hits()."""
     rc, out = sh([sys.executable, os.path.join(VERIF, 'tools', 'translate_consts.py'), '--repo', REPO, '--out',
                   os.path.join(COQ, 'gen', 'Constants.v')])
     return rc == 0, out.strip()
+
+
+STALE_JSON = os.path.join(COQ, 'gen', 'stale.json')
+
+
+def tie_stale():
+    """names the last translator run could not translate: dict name -> {'error': .., 'search': [names to look for in coq/]}"""
+    if not os.path.exists(STALE_JSON):
+        return {}
+    try:
+        rep = json.load(open(STALE_JSON))
+    except (OSError, ValueError):
+        return {}
+    out = {}
+    for n, err in rep.get('stale', {}).items():
+        out[n] = {'error': err, 'search': [n] + list(rep.get('affects', {}).get(n, []))}
+    return out
+
+
+_CLOSURE_CACHE = {}
+
+
+def coq_imports(path):
+    """JB modules a .v file requires: list of file paths (relative to coq/)"""
+    try:
+        txt = strip_coq_comments(open(os.path.join(COQ, path)).read())
+    except OSError:
+        return []
+    files = [l.strip() for l in open(os.path.join(COQ, '_CoqProject')).read().split('\n') if l.strip().endswith('.v')]
+    by_mod = {}
+    for f in files:
+        by_mod.setdefault(os.path.basename(f)[:-2], []).append(f)
+        by_mod.setdefault(f[:-2].replace('/', '.'), []).append(f)
+    out = []
+    for m in re.finditer(r'\bFrom\s+JB\s+Require\b', txt):
+        # the sentence ends at the first `.` that is followed by white space (module names may be dotted: Props.C01)
+        e = re.compile(r'\.(?:\s|$)').search(txt, m.end())
+        words = txt[m.end():e.start() if e else len(txt)].split()
+        for mod in words:
+            if mod in ('Import', 'Export'):
+                continue
+            for f in by_mod.get(mod, []):
+                if f not in out:
+                    out.append(f)
+    return out
+
+
+def props_closure(pid):
+    """files (relative to coq/) in the transitive `From JB Require` closure of Props/<pid>.v, itself included.
+    Cached in work/deps.json, keyed by the modification times of the files of the closure and of _CoqProject."""
+    root = os.path.join('Props', pid + '.v')
+    if pid in _CLOSURE_CACHE:
+        return _CLOSURE_CACHE[pid]
+    cache_p = os.path.join(WORK, 'deps.json')
+
+    def stamp(files):
+        return [[f, os.path.getmtime(os.path.join(COQ, f)) if os.path.exists(os.path.join(COQ, f)) else 0] for f in files + ['_CoqProject']]
+    try:
+        cache = json.load(open(cache_p))
+    except (OSError, ValueError):
+        cache = {}
+    ent = cache.get(pid)
+    if ent and ent.get('stamp') == stamp(ent.get('files', [])):
+        _CLOSURE_CACHE[pid] = ent['files']
+        return ent['files']
+    seen, todo = [], [root]
+    while todo:
+        f = todo.pop()
+        if f in seen:
+            continue
+        seen.append(f)
+        todo.extend(coq_imports(f))
+    seen.sort()
+    cache[pid] = {'files': seen, 'stamp': stamp(seen)}
+    try:
+        os.makedirs(WORK, exist_ok=True)
+        with open(cache_p, 'w') as fo:
+            json.dump(cache, fo)
+    except OSError:
+        pass
+    _CLOSURE_CACHE[pid] = seen
+    return seen
+
+
+def stale_hits(pid, stale):
+    """which stale names does property pid depend on?  dict name -> [files of the import closure of Props/<pid>.v that mention it
+    (or a name it affects; NAME_SAFE counts as NAME)].  The generated file itself is not searched."""
+    hits = {}
+    if not stale:
+        return hits
+    files = [f for f in props_closure(pid) if f != os.path.join('gen', 'Constants.v')]
+    texts = {}
+    for f in files:
+        try:
+            texts[f] = open(os.path.join(COQ, f)).read()
+        except OSError:
+            pass
+    for n, info in stale.items():
+        rx = re.compile(r'(?<![A-Za-z0-9_\'])(?:' + '|'.join(re.escape(x) for x in info['search']) + r')(?:_SAFE)?(?![A-Za-z0-9_\'])')
+        where = [f for f, t in texts.items() if rx.search(t)]
+        if where:
+            hits[n] = where
+    return hits
 
 
 def coq_build(targets=None):
